@@ -209,12 +209,19 @@ func vRunCase9(t *testing.T, c vCase) (msg string) {
 	case "hidden-scalar":
 		// observe, mutate with mutator c.N, observe again: the second observation must describe the new value
 		vals := []*big.Int{big.NewInt(5), new(big.Int).Sub(vN, big.NewInt(2)), new(big.Int).Lsh(big.NewInt(1), 200)}
+		tt := t
+		vHostilePrelude(tt)
 		for _, v0 := range vals {
 			s, t, u := vScalarOf(t, v0), vScalarOf(t, new(big.Int).Sub(vN, big.NewInt(7))), vScalarOf(t, big.NewInt(12345))
 			_ = s.Bits()
-			_ = s.Encode()
+			vScribble(s.Encode())
+			if mb, err := s.MarshalBinary(); err == nil {
+				vScribble(mb)
+			}
 			_ = s.IsZero()
+			_ = s.IsOne()
 			_ = s.Equal(t)
+			_ = s.LessOrEqual(t)
 			switch c.N {
 			case 0:
 				s.Add(t)
@@ -253,19 +260,24 @@ func vRunCase9(t *testing.T, c vCase) (msg string) {
 					return "after mutator " + itoa(c.N) + " Bits()[" + itoa(i) + "] does not describe the current value " + want.Text(16)
 				}
 			}
-			if !bytes.Equal(s.Encode(), f.Encode()) || s.IsZero() != f.IsZero() || s.Equal(u) != f.Equal(u) || s.LessOrEqual(u) != f.LessOrEqual(u) {
+			if !bytes.Equal(s.Encode(), f.Encode()) || s.IsZero() != f.IsZero() || s.Equal(u) != f.Equal(u) || s.LessOrEqual(u) != f.LessOrEqual(u) || s.IsOne() != f.IsOne() || u.LessOrEqual(s) != u.LessOrEqual(f) || s.Hex() != f.Hex() {
 				return "after mutator " + itoa(c.N) + " an observer disagrees with a fresh scalar holding the same limbs"
 			}
 			g := vElementOf(vG(), big.NewInt(3))
 			if got, ok := vPointOf(g.Multiply(s)); !ok || !vSame(got, vMulPt(want, vG())) {
 				return "after mutator " + itoa(c.N) + " Multiply uses a stale scalar value"
 			}
+			if m := vSanity(tt); m != "" {
+				return "after scalar mutator " + itoa(c.N) + ": " + m
+			}
 		}
 	case "hidden-element":
+		vHostilePrelude(t)
 		g := vG()
 		e, q := vElementOf(vMulPt(big.NewInt(3), g), big.NewInt(5)), vElementOf(vMulPt(big.NewInt(9), g), big.NewInt(7))
-		_ = e.Encode()
-		_ = e.EncodeUncompressed()
+		vScribble(e.Encode())
+		vScribble(e.EncodeUncompressed())
+		vScribble(e.XCoordinate())
 		_ = e.IsIdentity()
 		_ = e.Equal(q)
 		switch c.N {
@@ -294,8 +306,11 @@ func vRunCase9(t *testing.T, c vCase) (msg string) {
 		if !bytes.Equal(e.Encode(), f.Encode()) || !bytes.Equal(e.EncodeUncompressed(), f.EncodeUncompressed()) || e.IsIdentity() != f.IsIdentity() || e.Equal(q) != f.Equal(q) {
 			return "after mutator " + itoa(c.N) + " an observer disagrees with a fresh element holding the same coordinates"
 		}
+		if m := vSanity(t); m != "" {
+			return "after element mutator " + itoa(c.N) + ": " + m
+		}
 	default:
-		return "unknown case kind " + c.Kind
+		return vRunCase10(t, c)
 	}
 	return ""
 }
